@@ -1,5 +1,19 @@
 package c16
 
-import "verif/engine/runner"
+import (
+	"verif/engine/runner"
+	"verif/harness/c01"
+	"verif/harness/c02"
+	"verif/harness/wire"
+	"verif/harness/xfer"
+)
 
-func wireUnits(tier string) []runner.Unit { return nil }
+// Part B: the wire monitor on executions of the real stack (TCP pattern pairs and size
+// pairs, UDP base matrix).
+func wireUnits(tier string) []runner.Unit {
+	pats := xfer.Patterns(tier)
+	mon := wire.MonitorC16(pats)
+	us := c01.Units("C16", mon, "patterns-pairwise,sizes-pairwise")(tier)
+	us = append(us, c02.Units("C16", wire.MonitorC16(xfer.Patterns("quick")), "base-matrix")(tier)...)
+	return us
+}
